@@ -291,10 +291,11 @@ func IsFqdn(s string) bool {
 
 	// Otherwise we have to check if the dot is escaped or not by checking if
 	// there are an odd or even number of escape sequences before the dot.
-	i := strings.LastIndexFunc(s, func(r rune) bool {
-		return r != '\\'
-	})
-	return (len(s)-i)%2 != 0
+	i := len(s) - 1
+	for i >= 0 && s[i] == '\\' {
+		i--
+	}
+	return (len(s)-1-i)%2 == 0
 }
 
 // IsRRset reports whether a set of RRs is a valid RRset as defined by RFC 2181.
